@@ -24,6 +24,16 @@
 #include <algorithm>
 #include "custom_exception.hpp"
 
+#ifdef SIM_TSAN
+extern "C" void __tsan_acquire(void* addr);
+extern "C" void __tsan_release(void* addr);
+#define TSAN_ACQ(a) __tsan_acquire(a)
+#define TSAN_REL(a) __tsan_release(a)
+#else
+#define TSAN_ACQ(a) ((void)0)
+#define TSAN_REL(a) ((void)0)
+#endif
+
 namespace sim {
 
 static const int MAXT = 16;
@@ -530,7 +540,7 @@ void omp_destroy_lock(void* l) {}
 void omp_set_lock(void* l) {
     int* w = (int*)l;
     if (G.cfg.free_running && G.running) {
-        for (;;) { int exp = 0; if (__atomic_compare_exchange_n(w, &exp, 1, false, __ATOMIC_ACQUIRE, __ATOMIC_RELAXED)) return; if (exp != 1) { __atomic_store_n(w, 1, __ATOMIC_RELAXED); return; } sched_yield(); }
+        for (;;) { int exp = 0; if (__atomic_compare_exchange_n(w, &exp, 1, false, __ATOMIC_ACQUIRE, __ATOMIC_RELAXED)) { TSAN_ACQ(l); return; } if (exp != 1) { __atomic_store_n(w, 1, __ATOMIC_RELAXED); TSAN_ACQ(l); return; } sched_yield(); }
     }
     if (tl_member < 0 || G.reg.n <= 1 || tl_nest > 0) { if (*w != 0 && (*w < 0 || *w > MAXT)) G.st.lock_garbage++; *w = 1; return; }
     sched_point(C_LOCK);
@@ -540,7 +550,7 @@ void omp_set_lock(void* l) {
 }
 void omp_unset_lock(void* l) {
     int* w = (int*)l;
-    if (G.cfg.free_running && G.running) { __atomic_store_n(w, 0, __ATOMIC_RELEASE); return; }
+    if (G.cfg.free_running && G.running) { TSAN_REL(l); __atomic_store_n(w, 0, __ATOMIC_RELEASE); return; }
     *w = 0;
     if (tl_member < 0 || G.reg.n <= 1 || tl_nest > 0) return;
     wake_blocked(l);
